@@ -858,3 +858,62 @@ func isSelfPointerTest(p *Program, f *FuncInfo, e ast.Expr) bool {
 	}
 	return false
 }
+
+func init() {
+	register(&Rule{ID: "CYCLE-3", Doc: "unmarshal does not follow a pointer chain without bound: in makePointerArshaler's unmarshal closure the descent into the element of an already non-nil pointer (which consumes no input) is protected like the marshal side, by a call of visitPointer (a test for a pointer to itself alone would stop 1-cycles only). Without it a pointer-cyclic destination (`type P *P; p = &p`) recurses until the stack overflows (finding F15, open)", Run: ruleCYCLE3})
+}
+
+func ruleCYCLE3(c *Ctx) {
+	p := c.P
+	f := p.Func("json.makePointerArshaler:unmarshal")
+	if f == nil || f.Body() == nil {
+		c.Undecide("json.makePointerArshaler:unmarshal", "closure missing")
+		return
+	}
+	n := 0
+	for _, g := range p.CalleeClosure(f, 1) {
+		if g.Body() == nil || (g != f && g.File != f.File) {
+			continue
+		}
+		info := g.Info()
+		// the descent: a use of X.Elem() on an addressableValue parameter of pointer kind (va.Elem())
+		var site ast.Node
+		InspectNoLit(g.Body(), func(nd ast.Node) bool {
+			call, ok := nd.(*ast.CallExpr)
+			if !ok || len(call.Args) != 0 {
+				return true
+			}
+			if fn := Callee(info, call); fn == nil || fn.Name() != "Elem" || fn.Pkg() == nil || fn.Pkg().Path() != "reflect" {
+				return true
+			}
+			sel, ok := ast.Unparen(call.Fun).(*ast.SelectorExpr)
+			if !ok {
+				return true
+			}
+			pv, _ := IdentObj(info, sel.X).(*types.Var)
+			if pv == nil || !isNamed(pv.Type(), pkgAlias["json"], "addressableValue") {
+				return true
+			}
+			if _, inLit := p.Parent(g.File, call).(*ast.CompositeLit); inLit {
+				site = call
+			}
+			return true
+		})
+		if site == nil {
+			continue
+		}
+		n++
+		guarded := false
+		InspectNoLit(g.Body(), func(nd ast.Node) bool {
+			switch x := nd.(type) {
+			case *ast.CallExpr:
+				if fn := Callee(info, x); fn != nil && fn.Name() == "visitPointer" {
+					guarded = true
+				}
+			}
+			return true
+		})
+		c.Oblige("pointer-descent-has-cycle-guard", site.Pos(), guarded, "the pointer arshaler dereferences an already non-nil pointer and unmarshals into its element without consuming input and without any cycle test (the marshal side calls visitPointer): for `type P *P; var p P; p = &p`, json.Unmarshal([]byte(\"1\"), &p) recurses until `fatal error: stack overflow`")
+	}
+	c.Floor("pointer descents in makePointerArshaler unmarshal", n, 1)
+}
